@@ -116,6 +116,38 @@ def check_shape(g, acc):
     r1, r2 = eq(A, C), eq(C, A)
     if r1 is not True or r2 is not True:
         acc.add_problem(problem("copy_not_equal", dict(case0, difference="copy"), expected=True, observed=[r1, r2]))
+    # ... also for trees in which a child lacks a prefix of its parent (remove_namespace on a subtree, set_nsmap on one
+    # node), and for a map that an inner node shares with its parent while the twin's is its own
+    for post in (("remove_namespace", "q"), ("set_nsmap_single", {"r": "urn:r"}), ("own_map_same_value", None)):
+        for path, _ in gtree.walk(g):
+            if not path:
+                continue
+            core.reset_store()
+            A = gtree.build(g)
+            B = gtree.build(g)
+            for t in (A, B):
+                x = node_at(t, path)
+                if post[0] == "remove_namespace":
+                    x.remove_namespace(post[1])
+                elif post[0] == "set_nsmap_single":
+                    x.set_nsmap(dict(post[1]), False)
+            if post[0] == "own_map_same_value":
+                node_at(B, path).nsmap = dict(node_at(B, path).nsmap)      # B's inner node owns an equal map; A's shares
+            C = A.copy()
+            n_pairs += 2
+            for label, (u, v) in (("twin", (A, B)), ("copy", (A, C))):
+                r1, r2 = eq(u, v), eq(v, u)
+                if r1 is not True or r2 is not True:
+                    acc.add_problem(problem("copy_not_equal" if label == "copy" else "twin_not_equal",
+                                            dict(case0, difference=label, post=list(post[:1]), at=list(path)),
+                                            expected=True, observed=[r1, r2]))
+            # and a single nsmap difference at that inner node must be seen from both sides
+            node_at(B, path).nsmap = dict(node_at(B, path).nsmap, zz="urn:zz")
+            r1, r2 = eq(A, B), eq(B, A)
+            n_pairs += 1
+            if r1 is not False or r2 is not False:
+                acc.add_problem(problem("difference_not_detected", dict(case0, difference="nsmap_inner_own_map", post=list(post[:1]), at=list(path)),
+                                        expected=False, observed=[r1, r2], difference_="nsmap"))
     for path, _ in gtree.walk(g):
         for label, gfn, pfn in differences(g, path):
             core.reset_store()
